@@ -819,3 +819,17 @@ def r14(c):
 def r15(c):
     from rules import c17
     c17.r5(c)
+
+
+@rule('C01', 'R01.16', 'a reply is put on the wire completely and its byte count is the number of data bytes: the byte-count helpers and the complete-write discipline of the physical layer (C03/R03.5, R03.9)')
+def r16(c):
+    from rules import c03
+    c03.r5(c)
+    c03.r9(c)
+
+
+@rule('C01', 'R01.17', 'pipelined requests are decoded from the bytes that were received: receive-buffer discipline and per-connection framing state (C05/R05.6, R05.7)')
+def r17(c):
+    from rules import c05
+    c05.r6(c)
+    c05.r7(c)
